@@ -13,7 +13,7 @@ variables of the packages this property's code lives in, the functions (other th
 assign to them or call methods on them, and the fields of the property's struct types. The model is
 a pure function of the arguments and of these fields; a new variable, writer or field is state the
 model does not know of. -/
-def stateC20 : List (String × String) := [("globals:stats", "ErrMismatchedSamples ErrSampleSize ErrSamplesEqual ErrZeroVariance MannWhitneyExactLimit MannWhitneyTiesExactLimit StdNormal _KDEBoundaryMethod_index _KDEKernel_index _LocationHypothesis_index inf nan quantileCIApproxThreshold"), ("globals:mathx", "nan smallFact"), ("globals:vec", ""), ("globals:fit", ""), ("globals:scale", ""), ("globals:graph", ""), ("globals:graphalg", ""), ("globals:graphout", ""), ("globalwrites:stats", "MannWhitneyUTest:StdNormal.CDF"), ("globalwrites:mathx", ""), ("globalwrites:vec", ""), ("globalwrites:fit", ""), ("globalwrites:scale", ""), ("globalwrites:graph", ""), ("globalwrites:graphalg", ""), ("globalwrites:graphout", ""), ("fields:stats.Sample", "Xs:[]float64 Weights:[]float64 Sorted:bool"), ("fields:stats.KDE", "Sample:Sample Kernel:KDEKernel Bandwidth:float64 BoundaryMethod:KDEBoundaryMethod BoundaryMin:float64 BoundaryMax:float64"), ("fields:stats.UDist", "N1:int N2:int T:[]int"), ("fields:stats.StreamStats", "Count:uint Total:float64 Min:float64 Max:float64 mean:float64 meanOfSquares:float64 vM2:float64"), ("fields:stats.LinearHist", "min:float64 max:float64 delta:float64 low:uint high:uint bins:[]uint"), ("fields:scale.Linear", "Min:float64 Max:float64 Base:int Clamp:bool"), ("fields:scale.Log", "private:struct{} Min:float64 Max:float64 Base:int Clamp:bool"), ("fields:graphalg.NodeMarks", "marks:[]uint32"), ("fields:fit.PolynomialRegressionResult", "Coefficients:[]float64 F:func(xfloat64)float64")]
+def stateC20 : List (String × String) := [("globals:stats", "ErrMismatchedSamples ErrSampleSize ErrSamplesEqual ErrZeroVariance MannWhitneyExactLimit MannWhitneyTiesExactLimit StdNormal _KDEBoundaryMethod_index _KDEKernel_index _LocationHypothesis_index inf nan quantileCIApproxThreshold"), ("globals:mathx", "nan smallFact"), ("globals:vec", ""), ("globals:fit", ""), ("globals:scale", ""), ("globals:graph", ""), ("globals:graphalg", ""), ("globals:graphout", ""), ("globalwrites:stats", "MannWhitneyUTest:StdNormal.CDF"), ("globalwrites:mathx", ""), ("globalwrites:vec", ""), ("globalwrites:fit", ""), ("globalwrites:scale", ""), ("globalwrites:graph", ""), ("globalwrites:graphalg", ""), ("globalwrites:graphout", ""), ("fields:stats.Sample", "Xs:[]float64 Weights:[]float64 Sorted:bool"), ("fields:stats.KDE", "Sample:Sample Kernel:KDEKernel Bandwidth:float64 BoundaryMethod:KDEBoundaryMethod BoundaryMin:float64 BoundaryMax:float64"), ("fields:stats.UDist", "N1:int N2:int T:[]int"), ("fields:stats.StreamStats", "Count:uint Total:float64 Min:float64 Max:float64 mean:float64 meanOfSquares:float64 vM2:float64"), ("fields:stats.LinearHist", "min:float64 max:float64 delta:float64 low:uint high:uint bins:[]uint"), ("fields:scale.Linear", "Min:float64 Max:float64 Base:int Clamp:bool"), ("fields:scale.Log", "private:struct{} Min:float64 Max:float64 Base:int Clamp:bool"), ("fields:graphalg.NodeMarks", "marks:[]uint32"), ("fields:fit.PolynomialRegressionResult", "Coefficients:[]float64 F:func(xfloat64)float64"), ("funcs:stats", "n=117 fnv64a=80a50d6f629bd21b"), ("funcs:mathx", "n=13 fnv64a=721c592b642cc9ba"), ("funcs:vec", "n=6 fnv64a=d885ec76a92e6ea6"), ("funcs:fit", "n=7 fnv64a=2b973b271185ef06"), ("funcs:scale", "n=30 fnv64a=1f1f5241e57ecbaa"), ("funcs:graph", "n=13 fnv64a=91fcf3f7fdaf1da6"), ("funcs:graphalg", "n=27 fnv64a=e894f2184af9a92e"), ("funcs:graphout", "n=6 fnv64a=ef4b5ce9d193d85e")]
 
 /-- the source has exactly the package-level variables, writers and struct fields the model accounts for -/
 theorem state_C20 : holdsAll stateC20 = true := by decide +kernel
